@@ -276,3 +276,86 @@ pub fn ref_verdict<G: AffineRepr>(
     let pf = ProofFields::<G>::parse(bytes).ok()?;
     Some(ref_verify::<G>(st, commitments, &pf))
 }
+
+use crate::shrink::{self, follow_at};
+
+/// statement-level shrink candidates for a session case
+pub fn shrink_session(sc: &SessionCase) -> Vec<(SessionCase, Option<(usize, Option<usize>)>)> {
+    let mut out = vec![];
+    for (st, removed) in shrink::shrink_statement(&sc.st) {
+        let (_, _, _, padded) = shape_of(&st);
+        out.push((SessionCase { st, cap_p: vec![padded], cap_v: vec![padded], ext_seed: sc.ext_seed }, removed));
+    }
+    let (_, _, _, padded) = shape_of(&sc.st);
+    if sc.cap_p != vec![padded] || sc.cap_v != vec![padded] {
+        out.push((SessionCase { st: sc.st.clone(), cap_p: vec![padded], cap_v: vec![padded], ext_seed: sc.ext_seed }, None));
+    }
+    out
+}
+
+pub fn shrink_wfault(f: &crate::faults::WFault, removed: Option<(usize, Option<usize>)>) -> Option<crate::faults::WFault> {
+    use crate::faults::WFault;
+    let Some(r) = removed else { return Some(f.clone()) };
+    Some(match f {
+        WFault::WireValue { at, which, d } => WFault::WireValue { at: follow_at(*at, r)?, which: *which, d: d.clone() },
+        WFault::Constant { at, d } => WFault::Constant { at: follow_at(*at, r)?, d: d.clone() },
+        WFault::CommitValue { at, d } => WFault::CommitValue { at: follow_at((*at, None), r)?.0, d: d.clone() },
+        other => other.clone(),
+    })
+}
+
+/// Candidate simplifications of a failing case (simplest first).
+pub fn shrink_case(prop: &str, case: &Value) -> Vec<Value> {
+    match prop {
+        "C01" => c01::shrink(case),
+        "C02" => c02::shrink(case),
+        "C03" => c03::shrink(case),
+        "C04" => c04::shrink(case),
+        "C05" => c05::shrink(case),
+        "C06" => c06::shrink(case),
+        "C07" => c07::shrink(case),
+        "C09" => c09::shrink(case),
+        "C10" => c10::shrink(case),
+        "C12" => c12::shrink(case),
+        "C16" => c16::shrink(case),
+        _ => vec![],
+    }
+}
+
+/// Adaptive adversary: forgeries that would be accepted by a verifier that
+/// derives its relation-combining weight too early.  For every schedule
+/// position p before the blinding scalars are absorbed, r_p is what such a
+/// verifier would use; the forgery trades t_x_blinding against e_blinding
+/// with that weight (t~ - d, e~ + r_p d).  A correct verifier rejects all.
+pub fn adaptive_forgeries<G: AffineRepr>(
+    st: &Statement,
+    commitments: &[G],
+    bytes: &[u8],
+) -> Vec<(usize, Vec<u8>)> {
+    use ark_std::UniformRand;
+    use rand_core::SeedableRng;
+    let Ok(pf) = ProofFields::<G>::parse(bytes) else { return vec![] };
+    let rf = crate::refsession::ref_verify_opt::<G>(st, commitments, &pf, true);
+    // position of the t_x_blinding append in the schedule
+    let Some(q) = rf.sched.iter().position(|o| matches!(o, crate::refsession::SOp::Append { label, .. } if label == b"t_x_blinding")) else { return vec![] };
+    let mut out = vec![];
+    let d = G::ScalarField::from(7u64);
+    let mut seen = std::collections::BTreeSet::new();
+    // r_candidates[i] = weight a clone taken right after sched[i] would give
+    // (index 0 is a placeholder); only positions before the blinding
+    // scalars are absorbed are computable by the adversary
+    for p in 1..q {
+        let Some(rb) = rf.r_candidates.get(p) else { continue };
+        if rb.len() != 32 || !seen.insert(rb.clone()) {
+            continue;
+        }
+        let mut seed = [0u8; 32];
+        seed.copy_from_slice(rb);
+        let r = G::ScalarField::rand(&mut rand_chacha::ChaCha20Rng::from_seed(seed));
+        let mut f = pf.clone();
+        f.scs[1] -= d;
+        f.scs[2] += r * d;
+        out.push((p, f.encode()));
+    }
+    out
+}
